@@ -303,6 +303,35 @@ def body(run: Run, replay):
                     run.violation("fdepsd parallel output `%s` is bit-identical to the serial result when the frequency vector is %s" % (nm, np.dtype(dt).name),
                                   {"fn": "fdepsd", "resp": respt, "freq_dtype": np.dtype(dt).name}, {"fn": "fdepsd", "rep": rep})
                     break
+    # ---- representation of the SIGNAL: integer and single-precision records (Share normalises them too) ---------------------
+    for dt in (np.float32, np.int64, np.int16):
+        sigd = (sig * 40).astype(dt)
+        for ci, opts in enumerate(cases):
+            if ci % (16 if quick else 4):
+                continue
+            o2 = dict(opts, rolloff="none")
+            freqs_ = np.array([8.0, 14.0, 22.0])
+            ref = srsmod.srs(sigd, sr, freqs_, 12.5, parallel="no", peak="abs", **o2)
+            out, ts = run_srs(np, srsmod, sigd, sr, freqs_, o2, 2, None, natural=True)
+            run.case(("srs-sigrep", np.dtype(dt).name, json.dumps(opts, sort_keys=True)), part="signal representation %s" % np.dtype(dt).name)
+            for (nm, a), (_, b) in zip(flat(np, out), flat(np, ref)):
+                if a != b:
+                    run.violation("srs parallel output `%s` is bit-identical to the serial result when the signal is %s" % (nm, np.dtype(dt).name),
+                                  {"fn": "srs", "opts": opts, "signal_dtype": np.dtype(dt).name}, {"fn": "srs", "rep": "sig-" + np.dtype(dt).name})
+                    break
+        kw = dict(resp="absacce", nbins=12, hpfilter=None, winends=None, rolloff="none", T0=20.0, detrend=False) if dt != np.int16 else None
+        if kw:
+            fs_ = (fsig * 40).astype(dt)
+            try:
+                ref = fdemod.fdepsd(fs_, 200.0, np.array([8.0, 14.0, 22.0]), 15.0, parallel="no", **kw)
+                out = fdemod.fdepsd(fs_, 200.0, np.array([8.0, 14.0, 22.0]), 15.0, parallel="yes", maxcpu=2, **kw)
+                bad_ = [nm for (nm, a), (nm2, b) in zip(flat_fde(np, out), flat_fde(np, ref)) if nm not in ("parallel", "ncpu") and a != b]
+            except Exception as ex:
+                bad_ = ["raised %r" % ex]
+            run.case(("fdepsd-sigrep", np.dtype(dt).name), part="signal representation %s" % np.dtype(dt).name)
+            if bad_:
+                run.violation("fdepsd parallel output `%s` is bit-identical to the serial result when the signal is %s" % (bad_[0], np.dtype(dt).name),
+                              {"fn": "fdepsd", "signal_dtype": np.dtype(dt).name}, {"fn": "fdepsd", "rep": "sig-" + np.dtype(dt).name})
     # ---- the decision whether to use a pool and with how many workers (spec Decide / DecideLaws) ---------------------------
     res = tlc.run("ParPool", "MC_ParPool_q3.cfg", workers=4, timeout=300)
     table = res.tagged("DECIDE")
